@@ -12,11 +12,21 @@ mkdir -p build/h out evidence
 python3 - <<'PY' || true
 import sys, os
 sys.path.insert(0, os.getcwd())
-from vlib import libs
-for v in ("ser",):
+from concurrent.futures import ThreadPoolExecutor
+from vlib import libs, core
+def one(v):
     try:
-        libs.build(v)
+        if v == "tsanser":
+            cm, cx = libs.VARIANTS["tsan"]
+            core.cmake_variant("tsanser", ["-DMANIFOLD_PAR=OFF", "-DMANIFOLD_CBIND=ON", "-DMANIFOLD_CROSS_SECTION=ON"], cx)
+        else:
+            libs.build(v)
+        return "%s ok" % v
     except Exception as e:
-        print("setup: variant %s not prebuilt: %s" % (v, str(e)[:500]))
+        return "setup: variant %s not prebuilt: %s" % (v, str(e)[:500])
+# two at a time: each ninja build already uses every core
+with ThreadPoolExecutor(max_workers=2) as ex:
+    for r in ex.map(one, ("ser", "san", "par", "vtbb", "tsanser")):
+        print(r)
 PY
 echo setup-done
